@@ -15,6 +15,10 @@ pub mod c13proj;
 pub mod splice;
 pub mod suppress;
 pub mod tables;
+pub mod procpool;
+pub mod yaml;
+pub mod yaml_gen;
+pub mod checkvar;
 
 pub struct Ctx {
   pub seed: u64,
@@ -63,6 +67,10 @@ pub fn run(unit: &str, ctx: &Ctx, rng: &mut Rng, o: &mut Out) -> bool {
     "near_miss" => matching::near_miss_unit(ctx, rng, o),
     "rules_shared" => rules::rules_unit(ctx, rng, o, true),
     "rules_disjoint" => rules::rules_unit(ctx, rng, o, false),
+    "yaml_load" => yaml_gen::yaml_load(ctx, rng, o),
+    "yaml_scan" => yaml::yaml_scan(ctx, rng, o),
+    "yaml_child" => yaml::child_main(),
+    "c12_accept" => checkvar::c12_accept(ctx, rng, o),
     _ => return false,
   }
   true
@@ -101,6 +109,9 @@ pub fn exec_op(op: &str, a: &serde_json::Value) -> serde_json::Value {
     return v;
   }
   if let Some(v) = lsp::exec(op, a) {
+    return v;
+  }
+  if let Some(v) = yaml::exec(op, a) {
     return v;
   }
   serde_json::json!({"harness_error": format!("op {op} is not replayable stand-alone")})
